@@ -133,6 +133,8 @@ type Run struct {
 	LastProgress  int           // step at which a job last started or ended, or mrp exited
 	progressSig   int
 	crashIdx      int
+	SubWins       map[string]*subWin // cluster submissions by job directory (relative to the scratch root)
+	subTask       map[string]string
 	stallIdx      int
 	stallBase     int
 	Output        []string // mrp stdout lines
@@ -549,7 +551,44 @@ func (r *Run) classWeight(t *vrt.Task) int {
 	return w
 }
 
+// subWin follows one cluster submission from the removal of the job's
+// _queued_locally sentinel to the recording of its job id.
+type subWin struct {
+	execed     bool // the submit command was started
+	otherGates int  // gates the submitting task passed between the removal and the submit command
+}
+
+func (r *Run) trackSubmission(t *vrt.Task) {
+	if t.Proc == nil || t.Proc.Kind != "mrp" {
+		return
+	}
+	if t.Kind == "fs" && strings.HasPrefix(t.Detail, "remove ") && strings.HasSuffix(t.Detail, "/_queued_locally") {
+		if r.SubWins == nil {
+			r.SubWins = map[string]*subWin{}
+			r.subTask = map[string]string{}
+		}
+		dir := strings.TrimSuffix(strings.TrimPrefix(t.Detail, "remove "), "/_queued_locally")
+		r.SubWins[dir] = &subWin{}
+		r.subTask[t.Label] = dir
+		return
+	}
+	dir, ok := r.subTask[t.Label]
+	if !ok {
+		return
+	}
+	w := r.SubWins[dir]
+	switch {
+	case t.Kind == "proc" && strings.HasPrefix(t.Detail, "exec "):
+		w.execed = true
+	case t.Kind == "fs" && strings.HasSuffix(t.Detail, "/_jobid"):
+		delete(r.subTask, t.Label)
+	case !w.execed:
+		w.otherGates++
+	}
+}
+
 func (r *Run) record(t *vrt.Task, of int) {
+	r.trackSubmission(t)
 	r.SchedHash = r.SchedHash*1099511628211 ^ hash64(strings.ReplaceAll(t.Label, r.Root, "$ROOT"), t.Kind, strings.ReplaceAll(t.Detail, r.Root, "$ROOT"))
 	if r.Cfg.KeepTrace {
 		r.Trace = append(r.Trace, SchedEntry{Step: r.Steps, Task: t.Label, Kind: t.Kind,
